@@ -83,6 +83,27 @@ Definition stage_reinit (st : strategy) (l : list prop) : option (list prop) :=
 Definition pass_reinit (l : list prop) : bool :=
   match filter is_reinit l with [] => true | _ => Nat.eqb (length l) 1 end.
 
+(* the same rule over counts, as the code decides it (ProposalBundle::length counts every kind) *)
+Record pcounts := { n_psk : nat; n_extinit : nat; n_custom : nat; n_update : nat; n_add : nat; n_remove : nat; n_reinit : nat; n_gce : nat }.
+Definition count_kind (f : body -> bool) (l : list prop) : nat := length (filter (fun p => f (p_body p)) l).
+Definition counts_of (l : list prop) : pcounts :=
+  {| n_psk := count_kind (fun b => match b with BPsk _ _ _ _ => true | _ => false end) l;
+     n_extinit := count_kind (fun b => match b with BExtInit => true | _ => false end) l;
+     n_custom := count_kind (fun b => match b with BCustom _ => true | _ => false end) l;
+     n_update := count_kind (fun b => match b with BUpdate _ => true | _ => false end) l;
+     n_add := count_kind (fun b => match b with BAdd _ _ => true | _ => false end) l;
+     n_remove := count_kind (fun b => match b with BRemove _ => true | _ => false end) l;
+     n_reinit := count_kind (fun b => match b with BReinit _ => true | _ => false end) l;
+     n_gce := count_kind (fun b => match b with BGce _ => true | _ => false end) l |}.
+Inductive reinit_verdict := RKeepAll | RError | RDropAllReinits | RKeepFirstReinit.
+Definition apply_reinit_verdict (v : reinit_verdict) (l : list prop) : option (list prop) :=
+  match v with
+  | RKeepAll => Some l
+  | RError => None
+  | RDropAllReinits => Some (filter (fun p => negb (is_reinit p)) l)
+  | RKeepFirstReinit => Some (firstn 1 l)
+  end.
+
 (* ---- the pointwise rules ---- *)
 Definition kind_allowed (p : prop) : bool :=     (* proposer_can_propose for wire proposals *)
   match p_sender p, p_by_ref p, p_body p with
